@@ -54,6 +54,7 @@ def parseAct (s : String) : Option (Option Act) :=
   | ["qd", c] => c.toNat?.map (fun c => some (.queueDirect c))
   | ["qu", c] => c.toNat?.map (fun c => some (.queueUnsendable c))
   | ["qc", c] => c.toNat?.map (fun c => some (.queueDirectClosing c))
+  | ["qbu", c] => c.toNat?.map (fun c => some (.queueBatchedUnsendable c))
   | ["cx", c] => c.toNat?.map (fun c => some (.cancel c))
   | ["w", w, l, r] => do
     let w ← parseWho w; let r ← parseIO r
@@ -123,6 +124,7 @@ def monitors (model : String) (steps : List (String × Obs)) (cancelled : List N
     | ["qd", c] => c.toNat?
     | ["qu", c] => c.toNat?
     | ["qc", c] => c.toNat?
+    | ["qbu", c] => c.toNat?
     | _ => none)
   match steps.getLast? with
   | none => none
@@ -141,7 +143,7 @@ def monitors (model : String) (steps : List (String × Obs)) (cancelled : List N
               | (a, o) :: rest =>
                 let bad := match prev, a.splitOn ":" with
                   | some p, [k, c] =>
-                    if (k = "qb" || k = "qd" || k = "qu" || k = "qc") && p.done then
+                    if (k = "qb" || k = "qd" || k = "qu" || k = "qc" || k = "qbu") && p.done then
                       match c.toNat? with
                       | some c => !cancelled.contains c && countOf o c = 0
                       | none => false
